@@ -120,8 +120,10 @@ def run(pid, rule, assumptions, n_quick=60, n_thorough=800, ndates=4, opts=None,
         import corr_demand  # noqa: F401
         import corr_leak  # noqa: F401
         import corr_wtw  # noqa: F401
+        import corr_land  # noqa: F401
         for fam, nq, nt, maxops in corr:
-            K.correspondence(rep, fam, nt if thorough else nq, maxops, tag=pid.lower(), maxdigits=30)
+            # (the float constants of PerviousSurface are binary fractions with 2^55 denominators: longer results are fine there)
+            K.correspondence(rep, fam, nt if thorough else nq, maxops, tag=pid.lower(), maxdigits=80 if fam == "land" else 30)
     seen = monitor_models(rep, pid, n_thorough if thorough else n_quick, ndates if not thorough else ndates + 3, opts)
     if extra:
         seen.update(extra(rep, thorough) or {})
